@@ -6,7 +6,7 @@
 """
 import sys, os, subprocess, json, shutil, time
 VERIF = os.path.dirname(os.path.dirname(os.path.abspath(__file__)))
-SCR = '/tmp/wt/confirm'
+SCR = os.environ.get('CONFIRM_SCR', '/tmp/wt/confirm')
 ENV = dict(os.environ, CARGO_NET_OFFLINE='true')
 
 
